@@ -808,6 +808,9 @@ func C05(r *ck.Run) {
 	}
 	r.Sharded(16, func() {
 		c05CrossProcess(r)
+		if r.ShardI <= 0 && os.Getenv("VERIF_C05_ONLY") == "" {
+			c05Derived(r, bound)
+		}
 		for ji, j := range jobs {
 			// whole (config, scenario) jobs are dealt to workers; inside a job the explorer is not sharded
 			_ = ji
@@ -820,4 +823,119 @@ func C05(r *ck.Run) {
 			st.Close()
 		}
 	})
+}
+
+// c05Derived: requests that read an object (or the bucket) while another request replaces or removes something,
+// checked against what any sequential order allows:
+//   - LIST‖DELETE: a listing that overlaps the delete of the last object below a directory (which prunes the
+//     directory) still shows every key nobody touched, or fails - it never answers with a complete-looking listing
+//     that lacks them;
+//   - PARTCOPY‖PUT: a part copied from an object that is being replaced holds one whole value of the source.
+func c05Derived(r *ck.Run, bound int) {
+	vals := []wval{mkval(0), mkval(1)}
+	for _, cfg := range []pxCfg{{}, {NoTmp: true}} {
+		st := newPxStore("c05d", cfg)
+		// LIST || DELETE
+		{
+			var keys []string
+			var lerr error
+			setup := func() []func() {
+				st.wipe()
+				st.mkBucket(c05Bucket)
+				for _, k := range []string{"aa/1", "mm/3", "top", "zz/only"} {
+					if err := st.put(st.A, c05Bucket, k, vals[0]); err != nil {
+						ck.Fatal("seed: %v", err)
+					}
+				}
+				keys, lerr = nil, nil
+				return []func(){
+					func() {
+						empty := ""
+						max := int32(1000)
+						out, err := st.A.ListObjectsV2(st.ctx(), &s3.ListObjectsV2Input{Bucket: sp(c05Bucket), Prefix: &empty, Delimiter: &empty, StartAfter: &empty, ContinuationToken: &empty, MaxKeys: &max})
+						lerr = err
+						if err == nil {
+							for _, o := range out.Contents {
+								keys = append(keys, getS(o.Key))
+							}
+						}
+					},
+					func() { st.B.DeleteObject(st.ctx(), &s3.DeleteObjectInput{Bucket: sp(c05Bucket), Key: sp("zz/only")}) },
+				}
+			}
+			check := func(x *sched.Exec) {
+				r.Add("evaluations", 1)
+				r.Add("transitions", int64(len(x.Points)))
+				r.Distinct(fmt.Sprintf("derived|list-delete|%s|%v", cfg, x.Choices))
+				if lerr != nil {
+					r.Outcome("list||delete:listing-failed")
+					return
+				}
+				have := map[string]bool{}
+				for _, k := range keys {
+					have[k] = true
+				}
+				r.Outcome(fmt.Sprintf("list||delete:%d-keys", len(keys)))
+				if !have["aa/1"] || !have["mm/3"] || !have["top"] {
+					r.Violation(ck.JoinSig(storeClass(cfg), "listing-overlapping-a-delete-lacks-untouched-keys"), map[string]any{"config": cfg.String(), "listed": keys, "choices": x.Choices})
+				}
+			}
+			ex := &sched.Explorer{Bound: bound, Setup: setup, Check: check}
+			ex.Explore()
+			r.Add("schedules", ex.Execs)
+			r.Add("execs LIST|D (untouched keys stay listed)", ex.Execs)
+		}
+		// PARTCOPY || PUT
+		{
+			var got obs
+			var perr error
+			setup := func() []func() {
+				st.wipe()
+				st.mkBucket(c05Bucket)
+				if err := st.put(st.A, c05Bucket, "src", vals[0]); err != nil {
+					ck.Fatal("seed: %v", err)
+				}
+				res, err := st.A.CreateMultipartUpload(st.ctx(), s3response.CreateMultipartUploadInput{Bucket: sp(c05Bucket), Key: sp("dst")})
+				if err != nil {
+					ck.Fatal("mpu: %v", err)
+				}
+				perr = nil
+				got = obs{}
+				return []func(){
+					func() {
+						rng := ""
+						cp, err := st.A.UploadPartCopy(st.ctx(), &s3.UploadPartCopyInput{Bucket: sp(c05Bucket), Key: sp("dst"), UploadId: &res.UploadId, PartNumber: i32(1), CopySource: sp(c05Bucket + "/src"), CopySourceRange: &rng})
+						if err != nil {
+							perr = err
+							return
+						}
+						pn := int32(1)
+						if _, err := st.A.CompleteMultipartUpload(st.ctx(), &s3.CompleteMultipartUploadInput{Bucket: sp(c05Bucket), Key: sp("dst"), UploadId: &res.UploadId, MultipartUpload: &types.CompletedMultipartUpload{Parts: []types.CompletedPart{{PartNumber: &pn, ETag: cp.ETag}}}}); err != nil {
+							perr = err
+						}
+					},
+					func() { st.put(st.B, c05Bucket, "src", vals[1]) },
+				}
+			}
+			check := func(x *sched.Exec) {
+				r.Add("evaluations", 1)
+				r.Add("transitions", int64(len(x.Points)))
+				r.Distinct(fmt.Sprintf("derived|partcopy-put|%s|%v", cfg, x.Choices))
+				if perr != nil {
+					r.Outcome("partcopy||put:copy-refused")
+					return
+				}
+				got = st.get(st.B, c05Bucket, "dst", vals)
+				r.Outcome(fmt.Sprintf("partcopy||put:body=%d", got.Body))
+				if got.Absent || got.Err != "" || got.Body < 0 {
+					r.Violation(ck.JoinSig(storeClass(cfg), "part-copied-from-an-object-being-replaced-is-not-one-whole-value"), map[string]any{"config": cfg.String(), "read": got.Raw, "choices": x.Choices})
+				}
+			}
+			ex := &sched.Explorer{Bound: bound, Setup: setup, Check: check}
+			ex.Explore()
+			r.Add("schedules", ex.Execs)
+			r.Add("execs PARTCOPY|W (part is one whole value)", ex.Execs)
+		}
+		st.Close()
+	}
 }
